@@ -631,7 +631,7 @@ func checkICCJpeg(p *Program, r *Report) {
 					app = ev
 				}
 			}
-			if wr == nil && app != nil && len(app.Args) == 4 {
+			if wr == nil && app != nil && len(app.Args) >= 4 {
 				// profile = append(append(empty, slot0...), slot1...) … in ascending slot order
 				k, _ := app.Args[0].(*Form)
 				first, _ := app.Args[1].(*Form)
